@@ -8,7 +8,7 @@
 // type `core::primitive::str`).  Its view is the sequence of characters; every method contract states what the
 // `core::str` method of the same name does ON AN ASCII STRING (byte offsets == character positions):
 //   len / is_empty / `s[a..]` / `s[..b]` / strip_prefix(char) / starts_with(&str) / find(pat) (first match) /
-//   rfind(pat) (last match) / matches(char).count() / parse::<isize>() / as_bytes().
+//   rfind(pat) (last match) / contains(pat) / matches(char).count() / parse::<isize>() / as_bytes().
 // Non-ASCII input is outside this contract (the parser treats every such character as an invalid digit).
 
 #[allow(non_camel_case_types)]
@@ -32,6 +32,10 @@ impl Pat for char { open spec fn hit(self, c: char) -> bool { c == self } }
 impl<'a> Pat for &'a [char; 3] {
     open spec fn hit(self, c: char) -> bool { c == self@[0] || c == self@[1] || c == self@[2] }
 }
+
+/// some character of s matches the pattern
+#[verifier::opaque]
+pub open spec fn has_hit<P: Pat>(s: Seq<char>, p: P) -> bool { exists|i: int| 0 <= i < s.len() && p.hit(#[trigger] s[i]) }
 
 /// core::num::IntErrorKind (mirror) / ParseIntError (opaque)
 pub enum IntErrorKind { Empty, InvalidDigit, PosOverflow, NegOverflow, Zero }
@@ -117,6 +121,8 @@ impl str {
     pub fn rfind<P: Pat>(&self, p: P) -> (r: Option<usize>)
         ensures r is Some ==> r.unwrap() < self@.len() && p.hit(at(self@, r.unwrap() as int)),
     { unimplemented!() }
+    #[verifier::external_body]
+    pub fn contains<P: Pat>(&self, p: P) -> (r: bool) ensures r == has_hit(self@, p) { unimplemented!() }
     #[verifier::external_body]
     pub fn as_bytes(&self) -> (r: &[u8]) { unimplemented!() }
     #[verifier::external_body]
@@ -242,28 +248,6 @@ pub open spec fn parsed_ok<const B: Word>(src: Seq<char>, repr: Repr<B>, nd: usi
     exists|d: FloatText| #[trigger] grammar(src, B as int, d)
         && nd as int == ft_prec(d)
         && same_value(B as int, repr.significand.v(), repr.exponent as int, ft_mant(B as int, d), ft_exp(d))
-}
-
-// ---- preconditions that exclude KNOWN DEFECT regions -----------------------------------------------------------------
-pub open spec fn any_marker(c: char) -> bool {
-    c == '@' || c == 'e' || c == 'E' || c == 'p' || c == 'P' || c == 'b' || c == 'B' || c == 'o' || c == 'O' || c == 'h' || c == 'H'
-}
-/// a '+' occurs only as the very first character or directly after a scale marker.  KNOWN DEFECT outside: a '+' at the
-/// start of the integer part (after the sign or the 0x prefix) or of the fraction part is accepted by
-/// `UBig::from_str_radix` and counted as a digit position ("1.+5" = 1.05 with precision 3, "-+5" has precision 2,
-/// "0x1.+8" = 1.03125)
-#[verifier::opaque]
-pub open spec fn plus_ok(s: Seq<char>) -> bool {
-    forall|j: int| 0 <= j && j + 1 < s.len() && s[j + 1] == '+' ==> any_marker(#[trigger] s[j])
-}
-/// no suffix of the text is a scale within 4*len of isize::MIN.  KNOWN DEFECT outside: `exponent -= fract_digits`
-/// overflows (panic in debug builds instead of Err; wrap-around in release builds)
-#[verifier::opaque]
-pub open spec fn scale_ok(s: Seq<char>) -> bool {
-    forall|k: int| 0 <= k <= s.len() ==> (match isize_text(#[trigger] s.subrange(k, s.len() as int)) {
-        Some(v) => v - 4 * s.len() >= isize::MIN,
-        None => true,
-    })
 }
 
 // ---- TRUSTED stubs of dashu-int --------------------------------------------------------------------------------------
@@ -395,31 +379,20 @@ pub proof fn lemma_ipow_16(n: nat)
 pub open spec fn sign_seq(c: Option<char>) -> Seq<char> { match c { Some(ch) => seq![ch], None => Seq::<char>::empty() } }
 /// after the sign has been stripped
 pub proof fn lemma_sign(s0: Seq<char>, s1: Seq<char>, c: Option<char>)
-    requires plus_ok(s0), scale_ok(s0),
+    requires
         match c {
             Some(ch) => s0.len() > 0 && at(s0, 0) == ch && (ch == '-' || ch == '+') && s1 == sub(s0, 1, s0.len() as int),
-            None => s1 == s0 && (s0.len() > 0 ==> at(s0, 0) != '+'),
+            None => s1 == s0,
         },
-    ensures s0 == sign_seq(c) + s1, plus_ok(s1), scale_ok(s1), s1.len() > 0 ==> at(s1, 0) != '+',
+    ensures s0 == sign_seq(c) + s1,
         s1.len() == s0.len() - sign_seq(c).len(),
         (sign_seq(c) == seq!['-']) <==> c == Some('-'),
         sign_seq(c).len() == 0 || sign_seq(c) == seq!['-'] || sign_seq(c) == seq!['+'],
 {
     if c == Some('+') { assert(seq!['+'][0] != seq!['-'][0]); }
-    reveal(sub); reveal(at); reveal(plus_ok); reveal(scale_ok);
+    reveal(sub); reveal(at);
     match c {
-        Some(ch) => {
-            assert(s0 =~= seq![ch] + s1);
-            assert forall|j: int| 0 <= j && j + 1 < s1.len() && s1[j + 1] == '+' implies any_marker(#[trigger] s1[j]) by {
-                assert(s1[j] == s0[j + 1] && s1[j + 1] == s0[j + 2]);
-                assert(any_marker(s0[j + 1]));
-            }
-            if s1.len() > 0 && s1[0] == '+' { assert(s1[0] == s0[1]); assert(any_marker(s0[0])); }
-            assert forall|k: int| 0 <= k <= s1.len() implies (match isize_text(#[trigger] s1.subrange(k, s1.len() as int)) {
-                Some(v) => v - 4 * s1.len() >= isize::MIN, None => true }) by {
-                assert(s1.subrange(k, s1.len() as int) =~= s0.subrange(k + 1, s0.len() as int));
-            }
-        },
+        Some(ch) => { assert(s0 =~= seq![ch] + s1); },
         None => { assert(s0 =~= Seq::<char>::empty() + s1); },
     }
 }
@@ -438,26 +411,14 @@ pub proof fn lemma_starts2_conv(s: Seq<char>, t: Seq<char>)
     reveal(sub); reveal(at);
     assert(s.subrange(0, 2) =~= t);
 }
-pub proof fn lemma_plus_sub(s: Seq<char>, a: int, b: int)
-    requires plus_ok(s), 0 <= a <= b <= s.len()
-    ensures plus_ok(s.subrange(a, b))
-{
-    reveal(plus_ok);
-    let t = s.subrange(a, b);
-    assert forall|j: int| 0 <= j && j + 1 < t.len() && t[j + 1] == '+' implies any_marker(#[trigger] t[j]) by {
-        assert(t[j] == s[a + j] && t[j + 1] == s[a + j + 1]);
-        assert(any_marker(s[a + j]));
-    }
-}
 /// cutting the scale part off at position p
 pub proof fn lemma_scale_split(s1: Seq<char>, p: int)
-    requires 0 <= p < s1.len(), plus_ok(s1)
+    requires 0 <= p < s1.len()
     ensures s1 == sub(s1, 0, p) + (seq![at(s1, p)] + sub(s1, p + 1, s1.len() as int)),
-        plus_ok(sub(s1, 0, p)), sub(s1, 0, p).len() == p,
+        sub(s1, 0, p).len() == p,
         forall|i: int| 0 <= i < p ==> at(sub(s1, 0, p), i) == #[trigger] at(s1, i),
 {
     reveal(sub); reveal(at);
-    lemma_plus_sub(s1, 0, p);
     assert(s1 =~= s1.subrange(0, p) + (seq![s1[p]] + s1.subrange(p + 1, s1.len() as int)));
 }
 pub proof fn lemma_no_scale(s1: Seq<char>)
@@ -472,22 +433,20 @@ pub proof fn lemma_sub_sub(s: Seq<char>, a: int, b: int, c: int, e: int)
     reveal(sub);
     assert(s.subrange(a, b).subrange(c, e) =~= s.subrange(a + c, a + e));
 }
-/// a part that starts right after a character that is no scale marker does not start with '+': the integer parser
-/// takes it as it is
+/// a part of a text without any '+' does not start with '+': the integer parser takes it as it is
 pub proof fn lemma_part_no_plus(s: Seq<char>, k: int, e: int)
-    requires plus_ok(s), 1 <= k <= e <= s.len(), !any_marker(at(s, k - 1))
+    requires !has_hit(s, '+'), 0 <= k <= e <= s.len()
     ensures strip_plus(sub(s, k, e)) == sub(s, k, e), sub(s, k, e).len() == e - k
 {
-    reveal(sub); reveal(at); reveal(plus_ok);
-    if k < e { assert(s.subrange(k, e)[0] == s[k]); if s[k] == '+' { assert(any_marker(s[k - 1])); } }
+    reveal(sub); reveal(has_hit);
+    if k < e { assert(s.subrange(k, e)[0] == s[k]); assert(!'+'.hit(s[k])); }
 }
-/// the same for a part that starts at the beginning of a text that does not start with '+'
-pub proof fn lemma_head_no_plus(s: Seq<char>, e: int)
-    requires 0 <= e <= s.len(), s.len() > 0 ==> at(s, 0) != '+'
-    ensures strip_plus(sub(s, 0, e)) == sub(s, 0, e), strip_plus(s) == s, sub(s, 0, e).len() == e
+pub proof fn lemma_whole_no_plus(s: Seq<char>)
+    requires !has_hit(s, '+')
+    ensures strip_plus(s) == s
 {
-    reveal(sub); reveal(at);
-    if e > 0 { assert(s.subrange(0, e)[0] == s[0]); }
+    reveal(has_hit);
+    if s.len() > 0 { assert(!'+'.hit(s[0])); }
 }
 /// the mantissa region of the text: [prefix of k characters] ipart [ '.' fpart ]
 pub open spec fn body_of(pre: Seq<char>, gi: Seq<char>, gdot: bool, gf: Seq<char>) -> Seq<char> {
@@ -533,12 +492,6 @@ pub proof fn lemma_concat_empty(a: Seq<char>)
 #[verifier::opaque]
 pub open spec fn ascii_text(s: Seq<char>) -> bool { forall|i: int| 0 <= i < s.len() ==> (#[trigger] s[i]) as int <= 127 }
 
-pub proof fn lemma_scale_ok(s: Seq<char>, k: int, v: int)
-    requires scale_ok(s), 0 <= k <= s.len(), isize_text(sub(s, k, s.len() as int)) == Some(v)
-    ensures v - 4 * s.len() >= isize::MIN
-{
-    reveal(scale_ok); reveal(sub);
-}
 pub proof fn lemma_digits_ok_empty(radix: int)
     ensures digits_ok(Seq::<char>::empty(), radix)
 {
